@@ -4,9 +4,42 @@
    op in {Pickle, Deepcopy, Clone None|shallow|deep}.  `conforms` = the stored value is one the
    trait's validator accepts (every state reached through the validators is). *)
 From Coq Require Import ZArith List Bool.
-From TV Require Import Common.Harness Common.CTables C14.Model C14.Law C14.Corr C14.Proofs.
+From TV Require Import Common.Harness Common.CTables C14.Model C14.Law C14.Corr C14.Proofs C14.Whole C14.Hist.
 Import ListNotations.
 Open Scope Z_scope.
+
+(* MAIN THEOREM.  The whole law (all 9 clauses of C14/Law.v: same class, equal values, transients at
+   default, no shared container where the mode is deep, containers bound to the copy, invalid items
+   rejected and valid mutations notifying exactly the copy on every container path, write-once stays
+   written) holds on the model's observation of a copy taken by ANY copy operation after ANY history
+   of assignments and nested appends (valid or rejected) on an object of ANY class with distinct trait
+   names whose container types are List/Dict/Set nestings over Int — the two listed findings excluded:
+   not every trait is transient (or the copy is a pickle), and no Any/ReadOnly trait without copy
+   metadata is deep-copied by copy.deepcopy. *)
+Theorem law_holds_after_every_history :
+  forall (op : copyop) (c : cls) (hs : list hop),
+    NoDup (map fst c) ->
+    (forall k d, In (k, d) c -> simple (td_type d) = true) ->
+    copies_all op c = false ->
+    (forall k d, In (k, d) c -> td_type d = TAny \/ td_type d = TReadOnly ->
+                 law_mode op d = CDeep -> effective op d = CDeep) ->
+    law op c (model_obs op c hs) = [].
+Proof. exact Hist.law_holds_after_every_history. Qed.
+Print Assumptions law_holds_after_every_history.
+
+(* the same for every well-formed source state, however reached *)
+Theorem law_holds_on_copy :
+  forall op c s0 n0, wf op c s0 n0 -> law op c (obs_of op c s0 n0) = [].
+Proof. exact Whole.law_holds_on_copy. Qed.
+Print Assumptions law_holds_on_copy.
+
+(* every state reached by a history is well-formed (values conform, identities below the counter,
+   containers of container traits bound to the object at every depth) *)
+Theorem reachable_states_wellformed :
+  forall c, NoDup (map fst c) -> (forall k d, In (k, d) c -> simple (td_type d) = true) ->
+  forall hs, wfs c (fst (hrun c orig_atom [] first_id hs)) (snd (hrun c orig_atom [] first_id hs)).
+Proof. intros c ND SI hs. apply hrun_wfs; [exact ND | exact SI | apply wfs_empty]. Qed.
+Print Assumptions reachable_states_wellformed.
 
 (* equal non-transient values: every copied trait reads back == the original's value *)
 Theorem roundtrip_values :
